@@ -670,6 +670,16 @@ def main(prop, argv):
     tier = argv[0] if argv else os.environ.get("VERIF_TIER", "quick")
     seed = int(os.environ.get("VERIF_SEED", "0"))
     br = build(prop.id, prop.component, prop.extract_file)
+    coqchk = None
+    if tier == "thorough" and br.ok_props:
+        # independent re-check of the compiled property file and everything it depends on, with the axiom list
+        with build_lock():
+            rc, out = sh(["timeout", "1700", "coqchk", "-silent", "-o", "-Q", "theories", "OJD", "-Q", "props", "OJDProps", f"OJDProps.{prop.id}"], cwd=COQ, timeout=1800)
+        coqchk = " ".join(out.split())[-1500:]
+        if rc != 0:
+            br.ok_props = False
+            br.failed_theorem = f"coqchk on OJDProps.{prop.id}"
+            br.log += out
     violations = []   # (replay payload, tail)
     known_lines = []
     total, stats, hashes, mismatches, errors = 0, Counter(), set(), [], []
@@ -736,7 +746,7 @@ def main(prop, argv):
     rule = prop.rule(tier) if hasattr(prop, "rule") else ""
     exhaustive = getattr(prop, "exhaustive", lambda tier: False)(tier)
     write_evidence(prop, tier, seed, br, total, hashes, stats, samples, time.time() - t0, len(violations), rule, exhaustive,
-                   extra={"harness_errors": len(errors), "known_findings_reported": known_lines})
+                   extra={"harness_errors": len(errors), "known_findings_reported": known_lines, **({"coqchk": coqchk} if coqchk else {})})
     for payload, tail in violations:
         path = write_replay(prop, payload)
         print(f"VIOLATION property={prop.id} replay={path}{tail}")
